@@ -4,7 +4,7 @@ import verde as vd
 import xarray as xr
 from hypothesis import strategies as st
 
-from vlib import gen
+from vlib import build, gen
 from vlib.runner import Sub, Violation
 
 PROPERTY = "C18"
@@ -49,7 +49,7 @@ def grid_cases(draw):
                 coords_2d=draw(st.booleans()), int_data=draw(st.booleans()),
                 dims=["y_" + draw(st.sampled_from(["a", "lat", "northing"])), "x_" + draw(st.sampled_from(["b", "lon", "easting"]))] if custom else None,
                 names=["var%d" % k for k in range(nvars)] if custom or nvars > 3 else None,
-                data_names_form=draw(st.sampled_from(["tuple", "list", "str"])))
+                data_names_form=draw(st.sampled_from(["tuple", "list", "str"])), orders=draw(build.orders_strategy()))
     return case
 
 
@@ -74,9 +74,13 @@ def build_inputs(case):
         coords = [ee, nn]
     else:
         coords = [east, north]
-    extras = [values(case, 100 + k) for k in range(case["nextra"])]
+    lay = build.Lay(case.get("orders"))
+    shp = (case["nr"], case["nc"])
+    if case["coords_2d"]:
+        coords = [lay(c.ravel(), shp) for c in coords]
+    extras = [lay(values(case, 100 + k).ravel(), shp) for k in range(case["nextra"])]
     coords = tuple(coords + extras)
-    data = tuple(values(case, k) for k in range(case["nvars"]))
+    data = tuple(lay(values(case, k).ravel(), shp, dtype="int64" if case["int_data"] else "float64") for k in range(case["nvars"]))
     names = case["names"] if case["names"] is not None else (list(default_names(case["nvars"])) if case["nvars"] else None)
     extra_names = ["extra%d" % k for k in range(case["nextra"])] if case["nextra"] else None
     return coords, data, names, extra_names
